@@ -82,3 +82,33 @@ def direct_index_access(prog):
                     if isinstance(e, dict) and "f" in e and e["f"] in INDEX_FIELDS and e.get("of", "").startswith("graph::Graph<"):
                         out[p][e["f"]].append(s)
     return out
+
+
+def adjacency_entries_only_for_new_nodes(ctx, prog, flows, rid, consequence):
+    """shared by C10 (searches walk these maps) and C02 (they are redundant indexes of `edges`): a whole-entry insert
+    into successors/predecessors(_map) happens only for a key that is not present yet"""
+    from effects import Effects
+    from engines import canon_exists
+    from props.c01 import controlling_atoms
+    from flow import fmt_desc
+    from mir import loc_str
+
+    ctx.rule(rid, "the adjacency maps are only ever extended: a whole-entry insert into them happens only for a node that is new")
+    effects = Effects(prog, flows)
+    n_ins = 0
+    for p in sorted(direct_index_access(prog)):
+        b = prog.bodies[p]
+        fl = flows.of(b)
+        for (bb, site, f, k) in index_events(effects, b):
+            if f not in (SUCC | PRED) or f.endswith("_vec") or k != "HashMap::insert":
+                continue
+            if getattr(site, "k", None) != "call" or not site.callee or not site.callee.short.endswith("HashMap::insert"):
+                continue
+            n_ins += 1
+            fresh = False
+            for (t, v, a) in controlling_atoms(fl, bb):
+                ce = canon_exists(fl, t, v, a)
+                if ce is not None and ce[2] is False and (fmt_desc(ce[0]).endswith("nodes_map") or fmt_desc(ce[0]).endswith(f)):
+                    fresh = True
+            ctx.require(fresh, rid, "insert|%s|%s" % (b.short, f), "the entry of `%s` is (re)created in %s only for a key that is not present yet" % (f, b.short.split("::")[-1]), ("`%s`.insert in %s is not limited to new nodes: re-adding an existing node replaces its adjacency entry with a fresh one, " % (f, b.short)) + (consequence % f), loc_str(site.span))
+    ctx.floor(rid, "adjacency_entry_inserts", n_ins, 2)
